@@ -82,6 +82,9 @@ class Conc:
         self.nl = "\n" if indent else ""
         self.cont_name = rnd.choice(CONT_NAMES)
         self.tc_name = rnd.choice(TEXTCONT_NAMES)
+        # loop family: the loop variable `a` takes values start, start+step, ...; scale them
+        # by a dyadic factor (exact in f32) to cover fractional starts and steps
+        self.vscale = rnd.choice([1, 1, 0.5, 0.25]) if rec.get("family") in ("loop", "looplim") else 1
         # per-shape spelling variants (order family): what kind of element a leaf
         # is and how it spells its position; the abstract geometry is unchanged
         self.shape = {}
@@ -97,6 +100,20 @@ class Conc:
                             self.points.add(n["id"])
                     walk(n["ch"])
             walk(rec["doc"])
+
+    def probe_scales(self):
+        """leaf ids whose probe reads the (scaled) loop variable a"""
+        if self.vscale == 1:
+            return {}
+        out = {}
+
+        def walk(nodes):
+            for n in nodes:
+                if n["k"] == "leaf" and n["rd"] == "a":
+                    out[n["id"]] = self.vscale
+                walk(n["ch"])
+        walk(self.rec["doc"])
+        return out
 
     def width_of(self, i):
         return 0 if self.shape.get(i) == "point" else 2
@@ -166,13 +183,14 @@ class Conc:
                 return f'<{self.tc_name}>c{i}</{self.tc_name}>{nl}'
             return f'<{self.cont_name}>{kids}</{self.cont_name}>{nl}'
         if k == "var":
-            a = [f'{x}="{expr_str(e, self.strmode)}"' for x, e in n["asg"]]
+            a = [f'{x}="{fmtnum(e["v"] * self.vscale) if (x == "a" and e["t"] == "lit" and self.vscale != 1) else expr_str(e, self.strmode)}"'
+                 for x, e in n["asg"]]
             return f'<var {" ".join(a)}/>{nl}'
         if k == "if":
             return f'<if test="{expr_str(n["cond"], False)}">{kids}</if>{nl}'
         if k == "loop":
             if n["form"] == "for":
-                data = self.rnd.choice([", ", ","]).join(str(i + 1) for i in range(n["cnt"]))
+                data = self.rnd.choice([", ", ","]).join(fmtnum((i + 1) * self.vscale) for i in range(n["cnt"]))
                 a = [f'var="{n["lv"]}"', f'data="{data}"']
                 if self.rnd.random() < 0.3:
                     a.append('idx-var="unusedidx"')
@@ -182,9 +200,9 @@ class Conc:
                 if n["lv"] != "-":
                     a.append(f'loop-var="{n["lv"]}"')
                     if n["start"] != 0 or self.rnd.random() < 0.5:
-                        a.append(f'start="{n["start"]}"')
-                    if n["step"] != 1 or self.rnd.random() < 0.5:
-                        a.append(f'step="{n["step"]}"')
+                        a.append(f'start="{fmtnum(n["start"] * self.vscale)}"')
+                    if n["step"] != 1 or self.vscale != 1 or self.rnd.random() < 0.5:
+                        a.append(f'step="{fmtnum(n["step"] * self.vscale)}"')
             else:
                 a = [f'{n["form"]}="{expr_str(n["cond"], False)}"']
             return f'<loop {" ".join(a)}>{kids}</loop>{nl}'
@@ -219,20 +237,26 @@ class Conc:
 # --------------------------------------------------------------------------
 # projection
 # --------------------------------------------------------------------------
-def decode_value(s, strmode):
+def fmtnum(x):
+    return str(int(x)) if x == int(x) else repr(float(x))
+
+
+def decode_value(s, strmode, scale=1):
     if s is None or s == "-" or s.startswith("$"):
         return -1
     if strmode:
         return len(s) if set(s) <= {"x"} else None
     try:
-        f = float(s)
-        return int(f) if f == int(f) else None
+        f = float(s) / scale
+        return int(f) if f == int(f) else f
     except ValueError:
         return None
 
 
-def project_items(out, strmode):
-    """Rendered items of an output document: rect elements tagged p<i>."""
+def project_items(out, strmode, scales=None):
+    """Rendered items of an output document: rect elements tagged p<i>.
+    scales: {leaf id: factor} for probes that read a scaled variable."""
+    scales = scales or {}
     root = vlib.parse_fragment(out)
     items = []
     for el in vlib.elements(root):
@@ -244,7 +268,7 @@ def project_items(out, strmode):
                     x = vlib.fnum(el.attrs.get("cx", "0")) - vlib.fnum(el.attrs.get("r", "0"))
                 else:
                     x = vlib.fnum(el.attrs.get("x", "0"))
-                items.append({"id": int(c[1:]), "v": decode_value(el.attrs.get("data-v"), strmode),
+                items.append({"id": int(c[1:]), "v": decode_value(el.attrs.get("data-v"), strmode, scales.get(int(c[1:]), 1)),
                               "x": int(x) if x is not None and x == int(x) else x})
                 break
     return items
@@ -481,7 +505,7 @@ def standard_compare(check_items=True, check_rng=False):
             return ("probe-not-clean", f"end-of-transform probe {resp.get('ts', {}).get('probe')}")
         if rec["res"] == "ok" and check_items:
             try:
-                items = project_items(resp["out"], rec["str"])
+                items = project_items(resp["out"], rec["str"], c.probe_scales())
             except vlib.XmlError as e:
                 return ("output-not-wellformed", str(e))
             exp = [it for it in rec["items"] if it["id"] not in c.points]
@@ -633,7 +657,7 @@ def twin_check(rep, recs, seed, tag, what):
         sub2.random()
         c2 = Conc(rec, sub2, wrap=wrap, indent=True)
         # same container names for both members of the pair
-        c2.cont_name, c2.tc_name = c1.cont_name, c1.tc_name
+        c2.cont_name, c2.tc_name, c2.vscale = c1.cont_name, c1.tc_name, c1.vscale
         # a shared fixed random stream for optional attribute spellings
         c1.rnd = random.Random(j)
         c2.rnd = random.Random(j)
